@@ -32,13 +32,14 @@ def noise_dim(nt, d, m):
 class Z:
     """z3 plumbing shared by one scenario"""
 
-    def __init__(self, timeout_ms=120000):
+    def __init__(self, timeout_ms=45000):
         self.zv = {}
         self.memo = {}
         self.timeout_ms = timeout_ms
         self.solver_s = 0.0
         self.queries = 0
         self.pmemo = {}
+        self.rmemo = {}
         self.normal_form = 0
 
     def zenv(self, name):
@@ -57,16 +58,26 @@ class Z:
             zclaim = res.to_z3(self.zenv) != 0
             self.normal_form += 1
         except NotImplementedError:
-            za = dag.to_z3(a, self.zenv, self.memo, side)
-            zb = dag.to_z3(b, self.zenv, self.memo, side)
-            zclaim = za != zb
+            try:
+                # rational functions: numerator of a - b over the least common denominator (denominators non-zero: the traced
+                # run divided by them; also added as assumptions)
+                num, D = dag.to_ratfun(dag._sub(a, b), self.rmemo)
+                zclaim = num.to_z3(self.zenv) != 0
+                side = [('den', dag._FACTORS[k].to_z3(self.zenv) != 0) for k in D]
+                self.normal_form += 1
+            except NotImplementedError:
+                side = []
+                za = dag.to_z3(a, self.zenv, self.memo, side)
+                zb = dag.to_z3(b, self.zenv, self.memo, side)
+                zclaim = za != zb
         s = z3.Solver()
         s.set('timeout', self.timeout_ms)
         s.add(*[c for _, c in side])
         s.add(*assumptions)
         s.add(zclaim)
+        from .core import z3_check
         t = time.time()
-        r = str(s.check())
+        r = z3_check(s, self.timeout_ms)
         self.solver_s += time.time() - t
         self.queries += 1
         model = {}
